@@ -241,6 +241,19 @@ def check(ctx):
             ctx.decide(ok, "R-DOM/unknown-avp", construct, avp.where(ld), "an unknown (vendor, code) falls back to the generic AVP",
                        "a (vendor, code) missing from the registry is not materialised as the generic AVP", key="unknown")
 
+    # the V-flag predicate used by the decoder masks the parsed flags with 0x80
+    um = ctx.need(repo.mods.get("bromelia.utils"), "module bromelia.utils")
+    iv = ctx.need(um.funcs.get("is_vendor_id"), "bromelia.utils.is_vendor_id")
+    consts = [repo.fold(um, n) for n in ast.walk(iv) if isinstance(n, ast.Name) and n.id.isupper()]
+    consts = [c for c in consts if isinstance(c, bytes)]
+    src = ast.unparse(iv)
+    ctx.decide(consts == [b"\x80"] and "&" in src and "!= 0" in src, "R-TABLE/vflag-mask", "bromelia.utils.is_vendor_id",
+               f"{um.rel}:{iv.lineno}", "decoder tests the V flag with mask 0x80",
+               f"is_vendor_id masks the flags with {consts}: the decoder reads the Vendor-ID field for the wrong AVPs", key="vmask")
+    sym = repo.resolve(avp.mod, "is_vendor_id")
+    ctx.decide(sym is not None and sym.node is iv, "R-TABLE/vflag-mask", construct, avp.where(ld), "load uses bromelia.utils.is_vendor_id",
+               "DiameterAVP.load does not use bromelia.utils.is_vendor_id", key="vmask_resolve", nontrivial=False)
+
     # ---- 2 bytes identity ----------------------------------------------------------------------
     ctx.clause = "2-bytes-identity"
     memo = {}
